@@ -14,6 +14,7 @@
 #include <nix/Hydra.hpp>
 #include <nix/NDSize.hpp>
 #include <nix/Platform.hpp>
+#include <nix/Exception.hpp>
 
 #include <vector>
 #include <iostream>
@@ -65,6 +66,9 @@ template<typename T>
 const T NDArray::get(size_t index) const
 {
     T value;
+    if (index >= dstore.size() / sizeof(T)) {
+        throw OutOfBounds("NDArray::get: index out of bounds", index);
+    }
     const byte_type *offset = dstore.data() + sizeof(T) * index;
     memcpy(&value, offset, sizeof(T));
     return value;
@@ -82,6 +86,9 @@ const T NDArray::get(const NDSize &index) const
 template<typename T>
 void NDArray::set(size_t index, T value)
 {
+    if (index >= dstore.size() / sizeof(T)) {
+        throw OutOfBounds("NDArray::set: index out of bounds", index);
+    }
     byte_type *offset = dstore.data() + sizeof(T) * index;
     memcpy(offset, &value, sizeof(T));
 }
